@@ -41,6 +41,7 @@
 #include "turbojpeg.h"
 
 #if defined(__SANITIZE_ADDRESS__)
+#include <sanitizer/asan_interface.h>
 #define LIBC_HEAP 1
 #else
 #define LIBC_HEAP 0
@@ -85,11 +86,13 @@ static void *dm_alloc(size_t n, int owner, int recycle, int *recycled)
   if (recycle && lastfreed && !blk_live(lastfreed)) {
     blk_t *o = blk_last(lastfreed);
 #if LIBC_HEAP
-    /* best effort: the sanitizer allocator gives the address back only with an
-       empty quarantine and the same size class */
-    a = malloc(n ? n : 1);
-    if (a != lastfreed) { lg_add("norecycle "); free(a); a = NULL; }
-    else { b->room = n; if (recycled) *recycled = 1; }
+    /* freed blocks are only poisoned (see dm_release), so the address can be handed out again:
+       the first n bytes become addressable, the rest stays poisoned */
+    if (o && n <= o->room) {
+      a = o->addr; b->map = o->map; b->room = o->room;
+      ASAN_UNPOISON_MEMORY_REGION(a, n);
+      if (recycled) *recycled = 1;
+    } else lg_add("norecycle ");
 #else
     if (o && n <= o->room) {
       mprotect(o->map, o->maplen - pagesz, PROT_READ | PROT_WRITE);
@@ -101,7 +104,7 @@ static void *dm_alloc(size_t n, int owner, int recycle, int *recycled)
   }
   if (!a) {
 #if LIBC_HEAP
-    a = malloc(n ? n : 1); b->room = n;
+    a = malloc(n ? n : 1); b->room = n; b->map = a;
 #else
     size_t body = (n + pagesz - 1) / pagesz * pagesz;
     b->maplen = body + pagesz;
@@ -122,7 +125,7 @@ static void dm_release(blk_t *b)
 {
   b->freed = 1; lastfreed = b->addr;
 #if LIBC_HEAP
-  free(b->addr);
+  ASAN_POISON_MEMORY_REGION(b->addr, b->room ? b->room : 1);     /* any later access is reported */
 #else
   mprotect(b->map, b->maplen, PROT_NONE);       /* any later access faults */
 #endif
@@ -175,12 +178,33 @@ static blk_t *blk_containing(unsigned char *p)
   return best;
 }
 
+/* capacity the caller granted for the buffer it passed to the current call: *outsize, except that a
+   TurboJPEG buffer reused from the previous successful call with reallocation enabled is granted whole */
+static blk_t *granted_blk; static size_t granted;
+static void grant(unsigned char *buf, size_t size, int whole)
+{
+  granted_blk = buf ? blk_live(buf) : NULL;
+  if (granted_blk) granted = (whole || size > granted_blk->size) ? granted_blk->size : size;
+}
+/* before a real-library call: canary between the granted capacity and the end of the block */
+static void grant_canary(void)
+{ if (granted_blk && granted < granted_blk->size) memset(granted_blk->addr + granted, 0xA5, granted_blk->size - granted); }
+static void grant_check(void)
+{
+  size_t k;
+  if (!granted_blk || granted_blk->freed) return;
+  for (k = granted; k < granted_blk->size; k++)
+    if (granted_blk->addr[k] != 0xA5) { lg_add("!ov%d@%zu ", granted_blk->id, k); granted_blk = NULL; stop_now(); }
+}
+
 /* the harness is the producer: every write is checked against the real block first */
 static void check_write(unsigned char *p, size_t n)
 {
   blk_t *b; size_t off;
   if (n == 0) return;
   b = blk_containing(p);
+  if (b && b == granted_blk && !b->freed && (size_t)(p - b->addr) + n > granted) {
+    size_t o = (size_t)(p - b->addr); lg_add("!ov%d@%zu ", b->id, o > granted ? o : granted); stop_now(); }
   if (!b) { lg_add("!ov0@0 "); stop_now(); }
   off = (size_t)(p - b->addr);
   if (b->freed) { lg_add("!ov%d@%zu ", b->id, off); stop_now(); }
@@ -205,15 +229,17 @@ static void heap_reset(void)
 {
   int i;
   for (i = 0; i < nblk; i++) {
-#if LIBC_HEAP
-    if (!blks[i].freed) free(blks[i].addr);
-#else
     int j, shared = 0;
     for (j = i + 1; j < nblk; j++) if (blks[j].map == blks[i].map) shared = 1;
-    if (!shared) munmap(blks[i].map, blks[i].maplen);
+    if (shared) continue;
+#if LIBC_HEAP
+    ASAN_UNPOISON_MEMORY_REGION(blks[i].map, blks[i].room ? blks[i].room : 1);
+    free(blks[i].map);
+#else
+    munmap(blks[i].map, blks[i].maplen);
 #endif
   }
-  nblk = 0; lastfreed = NULL; cur_passed = NULL;
+  nblk = 0; lastfreed = NULL; cur_passed = NULL; granted_blk = NULL;
 }
 
 /* a fault inside a guard page / freed block of the traced heap = overrun by the library */
@@ -400,6 +426,8 @@ static ref_t *reference(const spec_t *s)
   { int k; for (k = save_nblk; k < nblk; k++) if (!blks[k].freed) dm_release(&blks[k]);
 #if !LIBC_HEAP
     for (k = save_nblk; k < nblk; k++) munmap(blks[k].map, blks[k].maplen);
+#else
+    for (k = save_nblk; k < nblk; k++) { ASAN_UNPOISON_MEMORY_REGION(blks[k].map, blks[k].room ? blks[k].room : 1); free(blks[k].map); }
 #endif
     nblk = save_nblk; lgn = save_lgn; if (lg) lg[lgn] = 0; lastfreed = save_last; cur_passed = save_cur; }
   return r;
@@ -448,7 +476,29 @@ static void put_chunk(const unsigned char *data, size_t n)
 }
 
 /* ------------------------------------------------------------ histories */
-static unsigned char *c_buf; static size_t c_size; static unsigned long c_ulsize;
+/* the caller's records (pointer variable, size variable); all caller actions use the current one */
+#define NPAIR 8
+static unsigned char *p_buf[NPAIR]; static size_t p_size[NPAIR]; static unsigned long p_ul[NPAIR]; static int p_cur;
+#define c_buf p_buf[p_cur]
+#define c_size p_size[p_cur]
+#define c_ulsize p_ul[p_cur]
+static unsigned char *prev_buf; static int prev_id;   /* buffer (and block) the previous call on this object ended with */
+static int reused_by_doc(unsigned char *b) { blk_t *k = b ? blk_live(b) : NULL; return k && b == prev_buf && k->id == prev_id; }
+/* the buffer the TurboJPEG destination object remembers (it is the buffer "of a previous call") */
+static void note_dest(struct jpeg_compress_struct *ci)
+{
+  unsigned char *b = ci && ci->dest ? ((my_mem_dest_ptr)ci->dest)->buffer : NULL;
+  if (b != prev_buf) { prev_buf = b; prev_id = id_of(b); }
+}
+static unsigned char *snap_buf[NPAIR]; static size_t snap_size[NPAIR]; static unsigned long snap_ul[NPAIR];
+static void pairs_snapshot(void) { memcpy(snap_buf, p_buf, sizeof p_buf); memcpy(snap_size, p_size, sizeof p_size); memcpy(snap_ul, p_ul, sizeof p_ul); }
+/* no record other than the one passed to this call may change */
+static void pairs_check(void)
+{
+  int i;
+  for (i = 0; i < NPAIR; i++)
+    if (i != p_cur && (p_buf[i] != snap_buf[i] || p_size[i] != snap_size[i] || p_ul[i] != snap_ul[i])) { lg_add("!pair%d ", i); stop_now(); }
+}
 static unsigned char *held[256]; static int nheld;
 
 static void hand_over(void)
@@ -463,7 +513,7 @@ static void run_hist(char *p)
   tj = NULL; have_cinfo = 0;
   sscanf(p, "%15s%n", mgr, &n); p += n;
   is_ijg = !strcmp(mgr, "ijg");
-  c_buf = NULL; c_size = 0; nheld = 0;
+  memset(p_buf, 0, sizeof p_buf); memset(p_size, 0, sizeof p_size); memset(p_ul, 0, sizeof p_ul); p_cur = 0; prev_buf = NULL; prev_id = 0; nheld = 0;
   stop_armed = 1;
   if (setjmp(stop_jb)) goto done;
   while ((p = strchr(p, ';')) != NULL) {
@@ -475,6 +525,10 @@ static void run_hist(char *p)
       long sz = strtol(p, &p, 10); int rc = strtol(p, &p, 10);
       c_buf = dm_alloc((size_t)sz, 1, rc, NULL); c_size = (size_t)sz;
     } else if (op == 'Z') { c_size = (size_t)strtol(p, &p, 10);
+    } else if (op == 'V' || op == 'P') {
+      int k = strtol(p, &p, 10) & (NPAIR - 1);
+      if (op == 'V') { p_buf[k] = c_buf; p_size[k] = c_size; }
+      p_cur = k;
     } else if (op == 'N') { c_buf = NULL;
     } else if (op == 'S') { if (nheld < 256) held[nheld++] = c_buf;
     } else if (op == 'T' || op == 'G') {
@@ -502,6 +556,8 @@ static void run_hist(char *p)
         jpeg_create_compress(&cinfo); have_cinfo = 1;
       }
       cur_passed = c_buf;
+      grant(c_buf, c_size, !is_ijg && alloc && reused_by_doc(c_buf));
+      pairs_snapshot();
       if (setjmp(err_jb)) {
         st = err_code == JERR_BUFFER_SIZE ? 1 : 9;
         /* TurboJPEG bailout: term_destination only when started and alloc */
@@ -524,6 +580,9 @@ static void run_hist(char *p)
         if (is_ijg) c_size = (size_t)c_ulsize;
       }
       cinfo.global_state = CSTATE_START;
+      granted_blk = NULL;
+      pairs_check();
+      if (!is_ijg) note_dest(&cinfo);
       if (!alloc && !is_ijg && c_buf != cur_passed) lg_add("!moved ");
       hand_over();
       if (st == 0) {
@@ -544,7 +603,13 @@ static void run_hist(char *p)
       tj3Set(tj, TJPARAM_NOREALLOC, alloc ? 0 : 1);
       cur_passed = c_buf;
       size_before = c_size;
+      grant(c_buf, c_size, alloc && reused_by_doc(c_buf));
+      grant_canary();
+      pairs_snapshot();
       rc = do_op(tj, &s, &c_buf, &c_size);
+      grant_check(); granted_blk = NULL;
+      pairs_check();
+      note_dest((struct jpeg_compress_struct *)tj);    /* cinfo is the first member of the TurboJPEG instance */
       /* *jpegSize after a failed call is unspecified (at -O2 the bailout of tj3Compress8 sees a stale
          `alloc` after longjmp and lets term_destination overwrite it): the caller does not rely on it */
       if (rc != 0 && !alloc) c_size = size_before;
